@@ -14,8 +14,8 @@ import (
 
 // ---- JSON values ----------------------------------------------------------------------------------
 
-var intSpellings = []string{"0", "1", "-1", "7", "42", "2147483647", "-2147483648", "1.0", "1e2", "5.000", "-0", "3E0", "12e-1", "120e-1"}
-var badIntSpellings = []string{"2147483648", "-2147483649", "1.5", `"12"`, "true", "1e10", "[1]", "{}", "0.1e0", "9007199254740993"}
+var intSpellings = []string{"0", "1", "-1", "7", "42", "2147483647", "-2147483648", "1.0", "1e2", "5.000", "-0", "3E0", "120e-1", "0.5e1"}
+var badIntSpellings = []string{"2147483648", "-2147483649", "1.5", `"12"`, "true", "1e10", "[[1]]", "{}", "0.1e0", "12e-1", "9007199254740993"}
 var floatSpellings = []string{"0.1", "-0.0", "1e308", "1E-7", "123456789012345678901234567890", "3", "0.30000000000000004",
 	"9007199254740993", "1.7976931348623157e308", "5e-324", "1e-400", "2.5", "-1.25e+2", "100", "0.1e1", "4.9406564584124654e-324", "1e22", "1e23"}
 var badFloatSpellings = []string{`"1.5"`, "true", "[]", `{"a":1}`}
@@ -108,11 +108,16 @@ func genTyped(r *hx.Rand, t string, depth int, bad bool) string {
 		if bad && r.Chance(1, 2) {
 			return "null"
 		}
-		return genTyped(r, t[:len(t)-1], depth, bad)
+		return genTypedNN(r, t[:len(t)-1], depth, bad)
 	}
 	if !bad && r.Chance(1, 12) {
 		return "null"
 	}
+	return genTypedNN(r, t, depth, bad)
+}
+
+// genTypedNN: as genTyped, never the null literal at the top.
+func genTypedNN(r *hx.Rand, t string, depth int, bad bool) string {
 	if strings.HasPrefix(t, "[") {
 		inner := t[1 : len(t)-1]
 		if !bad && r.Chance(1, 5) {
@@ -309,7 +314,7 @@ func directiveMaybe(r *hx.Rand, s *Sel, nv func(string) string) string {
 
 var intLits = []string{"0", "3", "-7", "2147483647"}
 var floatLits = []string{"0.5", "1e3", "-2.25", "3", "1.7976931348623157e308"}
-var stringLits = []string{`"lit"`, `"ü é \"q\""`, `""`, `"""block "quoted" string"""`, `"😀"`}
+var stringLits = []string{`"lit"`, `"ü é \"q\""`, `""`, `"""block "quoted" string"""`, `"\u00fc escaped"`, `"tab\there"`}
 var inLits = []string{`{a: 1}`, `{b: "x", c: [1.5, 2]}`, `{nested: {a: 2, e: RED}}`, `{}`, `{any: {k: [1, "two", null]}}`, `{flag: true, id: 5}`}
 
 var querySelGens = []selGen{
@@ -415,27 +420,38 @@ var querySelGens = []selGen{
 	},
 	func(r *hx.Rand, a string, nv func(string) string) Sel {
 		s := Sel{}
-		sub := []string{"id", "name", "n"}
+		kinds := []string{"id", "name", "n"}
 		if r.Chance(1, 3) {
-			sub = append(sub, "boom")
+			kinds = append(kinds, "boom")
 		}
 		if r.Chance(1, 3) {
-			sub = append(sub, "must(ok: "+argOrVar(r, &s, nv, "Boolean", []string{"true", "false"}, nil)+")")
+			kinds = append(kinds, "must")
 		}
 		if r.Chance(1, 3) {
-			sub = append(sub, "scaled(by: "+argOrVar(r, &s, nv, "Float", floatLits[:3], nil)+")")
+			kinds = append(kinds, "scaledBy")
 		}
 		if r.Chance(1, 3) {
-			sub = append(sub, "scaled")
+			kinds = append(kinds, "scaled")
 		}
 		if r.Chance(1, 4) {
-			sub = append(sub, "secret")
+			kinds = append(kinds, "secret")
 		}
 		if r.Chance(1, 4) {
-			sub = append(sub, "__typename")
+			kinds = append(kinds, "__typename")
 		}
-		hx.Shuffle(r, sub)
-		sub = sub[:r.Range(1, len(sub))]
+		hx.Shuffle(r, kinds)
+		kinds = kinds[:r.Range(1, len(kinds))]
+		var sub []string
+		for _, k := range kinds {
+			switch k {
+			case "must":
+				sub = append(sub, "must(ok: "+argOrVar(r, &s, nv, "Boolean", []string{"true", "false"}, nil)+")")
+			case "scaledBy":
+				sub = append(sub, "sb: scaled(by: "+argOrVar(r, &s, nv, "Float", floatLits[:3], nil)+")")
+			default:
+				sub = append(sub, k)
+			}
+		}
 		arg := ""
 		if r.Chance(2, 3) {
 			arg = "(n: " + argOrVar(r, &s, nv, "Int", []string{"0", "1", "3", "5", "6", "-1"}, []string{"2"}) + ")"
@@ -518,7 +534,7 @@ func genOp(r *hx.Rand) (QSpec, Op) {
 		if op.Kind != "" && (nOps > 1 || r.Chance(1, 2)) {
 			for {
 				op.Name = hx.Pick(r, opNames)
-				if op.Name == "Müller" && !r.Chance(1, 4) { // not a Name: a syntax error, keep it rare
+				if op.Name == "Müller" && !r.Chance(1, 12) { // not a Name: a syntax error, keep it rare
 					continue
 				}
 				if !usedNames[op.Name] || r.Chance(1, 10) {
@@ -563,7 +579,7 @@ func genOp(r *hx.Rand) (QSpec, Op) {
 		}
 	}
 	badVar := -1
-	if len(decls) > 0 && r.Chance(1, 6) {
+	if len(decls) > 0 && r.Chance(1, 8) {
 		badVar = r.Intn(len(decls))
 	}
 	var members []string
@@ -593,13 +609,15 @@ func genOp(r *hx.Rand) (QSpec, Op) {
 		}
 	}
 	switch {
-	case len(names) > 0 && r.Chance(3, 4):
+	case len(q.Ops) > 1 && len(names) > 0 && r.Chance(9, 10):
 		op.OpName = hx.Pick(r, names)
-	case r.Chance(1, 10):
+	case len(names) > 0 && r.Chance(3, 5):
+		op.OpName = hx.Pick(r, names)
+	case r.Chance(1, 20):
 		op.OpName = hx.Pick(r, []string{"Missing", "q", "Ünknown", " "})
 	}
 	// make it invalid sometimes
-	if r.Chance(1, 6) {
+	if r.Chance(1, 8) {
 		text := []rune(q.render())
 		m := &TextMut{}
 		switch r.Intn(6) {
